@@ -421,11 +421,35 @@ class Interp:
 
     def e_List(self, e, st):
         out = []
+        if any(isinstance(x, ast.Starred) for x in e.elts):
+            return self.list_with_starred(e, st)
         for k, vals, s in self.eval_seq(e.elts, st):
             if k == "val":
                 out.append(("val", self.alloc(s, HList(vals)), s))
             else:
                 out.append((k, vals, s))
+        return out
+
+    def list_with_starred(self, e, st):
+        """[a, *b, c]: the pieces concatenated left to right (a starred piece may be a list of symbolic length)"""
+        plain = [x.value if isinstance(x, ast.Starred) else x for x in e.elts]
+        out = []
+        for k, vals, s in self.eval_seq(plain, st):
+            if k == "exc":
+                out.append((k, vals, s))
+                continue
+            acc = HList([])
+            for x, v in zip(e.elts, vals):
+                if isinstance(x, ast.Starred):
+                    o = self.hget(s, v) if isinstance(v, Ref) else None
+                    piece = o if isinstance(o, (HList, HSymList)) else HList(self.iterate(v, s, x))
+                else:
+                    piece = HList([v])
+                if isinstance(acc, HList) and isinstance(piece, HList):
+                    acc = HList(acc.items + piece.items)
+                else:
+                    acc = self.models.symlist_concat(self, acc, piece, s)
+            out.append(("val", self.alloc(s, acc), s))
         return out
 
     def e_Set(self, e, st):
